@@ -69,6 +69,7 @@ type RunSpec struct {
 	FPExact  bool           `json:"fp_exact_add"`
 	Solver   string         `json:"solver"`
 	SymSl    bool           `json:"sym_slices"`
+	Witnesses int           `json:"witnesses"`
 	WallS    int            `json:"wall_s"`
 }
 
@@ -78,6 +79,7 @@ type HarnessResult struct {
 	Violations   []Violation
 	Inconclusive []Inconclusive
 	WallS        float64
+	Witnesses    []Witness
 }
 
 var currentParams map[string]int
@@ -91,11 +93,11 @@ func runHarnesses(l *Loaded, spec RunSpec, workers int, verbose bool) []HarnessR
 	for _, h := range names {
 		fn := l.Pkg.Func(h)
 		if fn == nil {
-			out = append(out, HarnessResult{Harness: h, Stats: newStats(), Inconclusive: []Inconclusive{{h, "harness function not found", ""}}})
+			out = append(out, HarnessResult{Harness: h, Stats: newStats(), Inconclusive: []Inconclusive{{Harness: h, Reason: "harness function not found"}}})
 			continue
 		}
 		cfg := Config{FloatModel: spec.Model, SolverBin: spec.Solver, SoftMS: spec.SoftMS, MaxSteps: spec.MaxSteps, MaxConcr: spec.MaxConcr,
-			Merge: spec.Merge, Workers: workers, MaxPaths: spec.MaxPaths, Verbose: verbose, FPExactAdd: spec.FPExact, SymSlices: spec.SymSl}
+			Merge: spec.Merge, Workers: workers, MaxPaths: spec.MaxPaths, Verbose: verbose, FPExactAdd: spec.FPExact, SymSlices: spec.SymSl, Witnesses: spec.Witnesses}
 		if cfg.FloatModel == "" {
 			cfg.FloatModel = "R"
 		}
@@ -123,13 +125,13 @@ func runHarnesses(l *Loaded, spec RunSpec, workers int, verbose bool) []HarnessR
 		t0 := time.Now()
 		ex := NewExplorer(l.Prog, fn, cfg)
 		ex.Run()
-		hr := HarnessResult{Harness: h, Stats: ex.stats, Violations: ex.violations, Inconclusive: ex.inconclusive, WallS: time.Since(t0).Seconds()}
+		hr := HarnessResult{Harness: h, Stats: ex.stats, Violations: ex.violations, Inconclusive: ex.inconclusive, WallS: time.Since(t0).Seconds(), Witnesses: ex.witnesses}
 		out = append(out, hr)
 		if verbose {
 			fmt.Fprintf(os.Stderr, "  %-50s paths=%d obl=%d/%d queries=%d (unk %d) solver=%.1fs wall=%.1fs vio=%d inc=%d merge=%d/%d steps=%d cachehits=%d\n", h, ex.stats.Paths, ex.stats.Discharged, ex.stats.Obligations,
 				ex.stats.Queries, ex.stats.QUnknown, ex.stats.SolverSec, hr.WallS, len(ex.violations), len(ex.inconclusive), ex.stats.MergeOK, ex.stats.MergeAbort, ex.stats.Steps, ex.stats.CacheHits)
 			for _, inc := range ex.inconclusive {
-				fmt.Fprintf(os.Stderr, "    INCONCLUSIVE: %s [%s]\n", inc.Reason, inc.Case)
+				fmt.Fprintf(os.Stderr, "    INCONCLUSIVE(x%d): %s [%s]\n", inc.Count, inc.Reason, inc.Case)
 			}
 			for _, v := range ex.violations {
 				b, _ := json.Marshal(v.Tape)
@@ -155,6 +157,7 @@ func cmdRun(args []string) int {
 	maxPaths := fs.Int("max-paths", 0, "path budget")
 	solver := fs.String("solver", "", "solver binary (default z3-new)")
 	symsl := fs.Bool("sym-slices", false, "keep slice offsets symbolic")
+	witness := fs.Int("witness", 0, "validate this many completed paths per harness natively")
 	fs.Parse(args)
 	t0 := time.Now()
 	l, err := loadProgram(repoRoot, filepath.Join(verifRoot, "harness"), *pkg, *tags)
@@ -163,7 +166,7 @@ func cmdRun(args []string) int {
 		return 2
 	}
 	fmt.Fprintf(os.Stderr, "loaded %s in %.1fs; harnesses: %v\n", *pkg, time.Since(t0).Seconds(), l.Harness)
-	spec := RunSpec{Pkg: *pkg, Tags: *tags, Model: *model, Merge: *merge, SoftMS: *soft, FPExact: *fpexact, MaxPaths: *maxPaths, Solver: *solver, SymSl: *symsl}
+	spec := RunSpec{Pkg: *pkg, Tags: *tags, Model: *model, Merge: *merge, SoftMS: *soft, FPExact: *fpexact, MaxPaths: *maxPaths, Solver: *solver, SymSl: *symsl, Witnesses: *witness}
 	if *harness != "" {
 		spec.Harness = strings.Split(*harness, ",")
 	}
@@ -180,9 +183,18 @@ func cmdRun(args []string) int {
 	}
 	res := runHarnesses(l, spec, *workers, true)
 	rc := 0
+	defer cleanupReplayBins()
 	for _, hr := range res {
 		if len(hr.Inconclusive) > 0 && rc == 0 {
 			rc = 2
+		}
+		for _, wt := range hr.Witnesses {
+			wt.Tape.complete(spec, l)
+			ok, detail := checkWitness(spec, wt)
+			fmt.Fprintf(os.Stderr, "    witness [%s]: agree=%v %s (observations %d)\n", wt.Case, ok, detail, len(wt.Expect))
+			if !ok && rc == 0 {
+				rc = 2
+			}
 		}
 		for _, v := range hr.Violations {
 			rc = 1
@@ -307,9 +319,25 @@ func cmdCheck(args []string) int {
 		if *verbose {
 			fmt.Fprintf(os.Stderr, "run pkg=%s tags=%s model=%s merge=%v params=%v\n", run.Pkg, run.Tags, run.Model, run.Merge, currentParams)
 		}
+		if run.Witnesses == 0 {
+			run.Witnesses = 1
+		}
+		if os.Getenv("VERIF_NO_WITNESS") != "" {
+			run.Witnesses = 0
+		}
 		res := runHarnesses(l, run, *workers, *verbose)
 		for _, hr := range res {
 			total.add(hr.Stats)
+			for _, wt := range hr.Witnesses {
+				wt.Tape.complete(run, l)
+				witnessRuns++
+				ok, detail := checkWitness(run, wt)
+				if ok {
+					witnessOK++
+				} else {
+					allInc = append(allInc, Inconclusive{Harness: hr.Harness, Reason: "translator validation: " + detail, Case: wt.Case})
+				}
+			}
 			allInc = append(allInc, hr.Inconclusive...)
 			ph := map[string]interface{}{"harness": hr.Harness, "pkg": run.Pkg, "tags": run.Tags, "model": run.Model, "merge": run.Merge,
 				"paths": hr.Stats.Paths, "decisions": hr.Stats.Decisions, "obligations": hr.Stats.Obligations, "discharged": hr.Stats.Discharged,
@@ -318,7 +346,7 @@ func cmdCheck(args []string) int {
 				"violations": len(hr.Violations), "inconclusive": len(hr.Inconclusive)}
 			perHarness = append(perHarness, ph)
 			if hr.Stats.Paths == 0 && len(hr.Inconclusive) == 0 {
-				allInc = append(allInc, Inconclusive{hr.Harness, "vacuous: no feasible complete path", ""})
+				allInc = append(allInc, Inconclusive{Harness: hr.Harness, Reason: "vacuous: no feasible complete path"})
 			}
 			for _, v := range hr.Violations {
 				v.Tape.complete(run, l)
@@ -339,12 +367,13 @@ func cmdCheck(args []string) int {
 						fmt.Printf("  violated: harness=%s msg=%q case=[%s] native: %s\n", v.Harness, v.Msg, v.Case, rr.Summary)
 					}
 				} else {
-					allInc = append(allInc, Inconclusive{v.Harness, fmt.Sprintf("counterexample for %q did not reproduce natively (%s): encoding or stub mismatch", v.Msg, rr.Summary), v.Case})
+					allInc = append(allInc, Inconclusive{Harness: v.Harness, Reason: fmt.Sprintf("counterexample for %q did not reproduce natively (%s): encoding or stub mismatch", v.Msg, rr.Summary), Case: v.Case})
 				}
 				allVio = append(allVio, v)
 			}
 		}
 	}
+	cleanupReplayBins()
 	wall := time.Since(t0).Seconds()
 	// evidence
 	if !*noEvidence {
